@@ -159,7 +159,9 @@ theorem block_conversion_idempotent (P : Params α) (b b' : Block α L R) :
 /-- **block_conversion_touches_only**: whatever the conversion returns differs
 from its argument at most in position coordinates, width/height/depth and the
 cartesian flag: every other attribute (`rest`) and the position's
-`screenEdgeLock` are unchanged. -/
+`screenEdgeLock` are unchanged.  This is a property of the MODEL: `rest : R` is opaque, so it is true by
+construction; that the real `evolve(...)` calls touch nothing else is established by the harness (comparison of all
+attributes of the real result with the input + the `evolve-keywords` AST obligations + the search). -/
 theorem block_conversion_touches_only (P : Params α) (b b' : Block α L R) :
     (toPolar P b = some b' → b'.rest = b.rest ∧ b'.lock = b.lock) ∧
     (toCartesian P b = some b' → b'.rest = b.rest ∧ b'.lock = b.lock) := by
@@ -200,7 +202,8 @@ theorem wrapDrain_eq_map {β γ : Type} (f : β → γ) : ∀ (src : List β) (n
 /-- **convert_stage_blockwise**: pulling a channel's blocks through the wrapper that `convert_objects_to_polar`
 / `convert_objects_to_cartesian` install yields, in order, exactly `to_polar` / `to_cartesian` of each block — as
 many blocks as went in, each converted independently of its position in the channel and of the blocks before it (the
-wrapper carries no state besides its inner source).  Hence every block-level theorem (`toPolar_result`,
+model of the wrapper carries no state besides its inner source: a modelling assumption, tied to the real
+`MetadataSourceModifyBlockFormat` by the channel correspondence and the `wrapper-stateless` obligation).  Hence every block-level theorem (`toPolar_result`,
 `block_conversion_touches_only`, `block_conversion_idempotent`, the round trips) holds for every block of a channel
 with mixed coordinate systems. -/
 theorem convert_stage_blockwise (P : Params α) (blocks : List (Block α L R)) :
@@ -556,7 +559,8 @@ theorem corners_exact_points (m : Nat) (s : Sector ℝ) (hs : s ∈ sectors (RP 
   · obtain ⟨j, h⟩ := polar_row_image m s hs 30 d; rw [e1] at h; exact ⟨j, h⟩
   · obtain ⟨j, h⟩ := polar_row_image m s hs (-30) d; rw [e2] at h; exact ⟨j, h⟩
 
-/-- Straight behind (azimuth ±180) maps to the middle of the back edge: `(0, -r_xy)`. -/
+/-- Straight behind, azimuth `+180` (only; `−180` is not proved here, it is searched and corresponded), maps to the
+middle of the back edge: `(0, -r_xy)`. -/
 theorem corner_back (m : Nat) (el d : ℝ) :
     ∃ j, pointPolarToCart (RP (m + 1)) 180 el d =
       some ((0, -(elToCart (RP (m + 1)) el d).2, (elToCart (RP (m + 1)) el d).1), j) := by
